@@ -11,7 +11,7 @@ From Coq Require Import List Bool Arith Ascii String NArith Permutation Sorted.
 From UV.Base Require Import Order SortUniq Res.
 From UV.Py Require Import PyStr.
 From UV.Schemes Require Import Common Generic LegacyOpenssl Gentoo GentooProofs Debian DebianProofs Semver SemverProofs Gem GemProofs Rpm RpmProofs Arch ArchProofs Openssl.
-From UV.Schemes Require Import Pypi Nuget NugetConanProofs NugetOrder.
+From UV.Schemes Require Import Pypi Nuget NugetConanProofs NugetOrder Conan ConanFlat.
 From UV.Ref Require Pep440.
 Import ListNotations.
 
@@ -106,6 +106,13 @@ Theorem C01_nuget :
   (forall s v, nuget_ctor s = Ok v -> nu_ok v = true).
 Proof. split; [exact nuget_order_tpo|]. split; [exact nuget_cmp_order|exact nuget_ctor_ok]. Qed.
 
+(* conan, plain releases (numeric items only, no pre-release or build part): the comparison is the lexicographic order
+   of the integer lists left after the trailing zeros are dropped, a total preorder.  With words among the items the
+   order is not transitive (a number and a word in one position are compared as texts): the excluded sub-domain. *)
+Theorem C01_conan_plain_releases :
+  TPO conan_flat_order /\ forall a b, flat_num a = true -> flat_num b = true -> conan_cmp a b = conan_flat_order a b.
+Proof. split; [exact conan_flat_tpo|exact conan_cmp_flat]. Qed.
+
 (* Non-vacuity: accepted versions have the shape the theorems need, and the orders are not trivial *)
 Example C01_nonvacuous :
   gok (list_ascii_of_string "1.02_alpha1_p-r3") = true /\
@@ -131,3 +138,5 @@ Print Assumptions C01_alpm.
 Print Assumptions C01_openssl.
 Print Assumptions C01_pypi.
 Print Assumptions C01_nuget.
+Print Assumptions C01_conan_plain_releases.
+Print Assumptions conan_flat_inhabited.
